@@ -7,6 +7,7 @@ CONSTANTS
   MaxPauses = 0
   TimeoutTicks = 2
   MaxTicks = 3
+  Weaken = "none"
   StopRoles <- BothRoles
 INVARIANTS TypeOK Fidelity NoSilentCorruption NoFalseSuccess CleanRunSucceeds DeleteExact
 PROPERTIES Termination
